@@ -7,7 +7,8 @@ spec: {"service_module", "client", "transport": "grpc"|"grpc_asyncio"|"rest", "m
        "grpc_script": {path: [reply...]}, "http_script": [reply...],
        "mode": "items" | "pages" | "items-break" | "pages-break", "break_after": n,
        "mutate_after_create": {field: value}  (set on the caller's request object right after the pager was returned),
-       "list_again": bool  (after draining, call the method again with the SAME request object and drain that pager too),
+       "list_again": true (after draining, call the method again with the SAME request object and drain that pager too)
+                     | "fresh" (the second listing uses a freshly built request; "fresh_client": true also a new client),
        "item_field": name, "is_map": bool, "attr_names": [names]}
 Per call the result holds what the *caller* sees (items, or per-page snapshots taken through the pager's own attribute
 lookup at each yield) and what the *servers* saw (every call, raw).  Nothing here imports gapic."""
@@ -77,7 +78,11 @@ def run_sync(spec, gs, hs, pkg):
                 break
     out["final"] = snapshot(pager, spec)
     out["caller_request_after"] = D.b64(type(req).serialize(req))
-    if spec.get("list_again"):      # the caller re-uses the same request object for a new listing
+    if spec.get("list_again"):      # a second listing in the same process: with the same request object, or with a FRESH one
+        if spec["list_again"] == "fresh":
+            req = D.build_message(D.resolve(spec["request"]["cls"]), spec["request"]["b64"])
+            if spec.get("fresh_client"):
+                client = D.make_client(pkg, spec["service_module"], spec["client"], spec["transport"], gs.target, hs.host)
         pager2 = getattr(client, spec["method"])(request=req, **call_kwargs(spec, False))
         out["again"] = {"items": [D.encode_value(list(x) if isinstance(x, tuple) else x) for x in pager2], "final": snapshot(pager2, spec)}
         out["caller_request_after_again"] = D.b64(type(req).serialize(req))
@@ -111,6 +116,8 @@ async def run_async(spec, gs, hs, pkg):
     out["final"] = snapshot(pager, spec)
     out["caller_request_after"] = D.b64(type(req).serialize(req))
     if spec.get("list_again"):
+        if spec["list_again"] == "fresh":
+            req = D.build_message(D.resolve(spec["request"]["cls"]), spec["request"]["b64"])
         pager2 = getattr(client, spec["method"])(request=req, **call_kwargs(spec, True))
         if inspect.isawaitable(pager2):
             pager2 = await pager2
